@@ -75,4 +75,141 @@ example : (readline [13, 10] [] [[97, 98, 13], [10], [99, 100]]).view = (some [9
 example : (readline [13, 10] [] [[97], [98, 13, 10, 99], [100]]).view = (some [97, 98], [99, 100]) := by decide
 example : (readbytes 3 [1] [[2], [3, 4], [5]]).view = (some [1, 2, 3], [4, 5]) := by decide
 
+
+/-! ## the transaction model: full statements, and what is proved of them
+
+A run is accepted by the model iff `exec init evs` is defined.  The full clauses quantify over ALL accepted runs (all
+schedules, any number of callers, all device behaviours).  They are kept here as statements; what is PROVED below are
+the step-level facts (`…_partial`) from which each follows by induction over the run together with the control-flow
+invariants listed in design_notes/C16.md — that induction is not done.  On the implementation side every clause is
+judged by its monitor on every recorded run, and every recorded run is replayed through `exec`. -/
+
+def Accepted (cfg : Cfg) (cbs : List Nat) (evs : List TEv) : Prop := (exec { cfg := cfg, cbsReg := cbs } evs).isSome = true
+
+def multicomm_atomic_statement : Prop := ∀ cfg cbs evs, Accepted cfg cbs evs → MulticommAtomic evs
+def delays_honoured_statement : Prop := ∀ cfg cbs evs, Accepted cfg cbs evs → DelaysHonoured evs
+def stale_discarded_statement : Prop := ∀ cfg cbs evs, Accepted cfg cbs evs → StaleDiscarded cfg.bytesMode cfg.eol evs
+def reply_pairing_statement : Prop := ∀ cfg cbs evs, Accepted cfg cbs evs → ReplyPairing cfg.bytesMode cfg.eol evs
+def fails_within_timeout_statement : Prop := ∀ cfg cbs evs, Accepted cfg cbs evs → FailsWithinTimeout cfg evs
+def state_visible_statement : Prop := ∀ cfg cbs evs, Accepted cfg cbs evs → StateVisible evs ∧ StateNotOverwritten evs
+def reconnect_rate_limited_statement : Prop := ∀ cfg cbs evs, Accepted cfg cbs evs → RateLimitedAll cfg evs
+def callbacks_once_statement : Prop := ∀ cfg cbs evs, Accepted cfg cbs evs → CallbacksOnce cbs evs
+
+/-- stale data discarded, step level: a `send` is accepted only from the drain state, when everything that had
+arrived on the connection has been read away and the device has not closed; the receive buffer is emptied -/
+theorem stale_discarded_partial (s s' : State) (t c conn n : Nat) (d : Bytes)
+    (h : stepCaller s t c (.send c conn n d) = some s') :
+    (s.callers c).pc = .drain ∧ s.chan = [] ∧ s.eof = false ∧ s.conn = some conn ∧ n = s.nsend
+      ∧ d = (current (s.callers c)).cmd := by
+  cases hpc : (s.callers c).pc <;> simp only [stepCaller, hpc] at h <;> try (simp at h)
+  split at h <;> simp_all
+
+/-- delays honoured, step level: a sleep of `d` started at `t` sets the wake-up time to `t + d`, and `d` is
+wait_before or the delay of the request just done … -/
+theorem delays_honoured_partial_sleep (s s' : State) (t c d : Nat) (h : stepCaller s t c (.slp c d) = some s') :
+    (s'.callers c).wakeAt = t + d ∧
+      (((s.callers c).pc = .slpWB ∧ d = s.cfg.waitBefore) ∨ ((s.callers c).pc = .slpD ∧ d = (s.callers c).wakeAt)) := by
+  cases hpc : (s.callers c).pc <;> simp only [stepCaller, hpc] at h <;> try (simp at h)
+  all_goals (obtain ⟨h1, h2⟩ := h; subst h2; simp [State.setC, h1])
+
+/-- … and the thread continues (next request, flush + send, or return) only when that time has come -/
+theorem delays_honoured_partial_wake (s s' : State) (t c : Nat) (h : stepCaller s t c (.wake c) = some s') :
+    (s.callers c).wakeAt ≤ t := by
+  cases hpc : (s.callers c).pc <;> simp only [stepCaller, hpc] at h <;> try (simp at h)
+  all_goals exact h.1
+
+/-- fails within the time-out, step level: the read loop is left with a time-out only after an empty `recv` at or
+after the end of the time-out (up to the clock slack); an empty `recv` ends no later than `gran` after it began
+(guard of the model = assumption on the lowest layer, `AsynConn.timeout`) -/
+theorem fails_within_timeout_partial (s s' : State) (t c : Nat) (hpc : (s.callers c).pc = .read)
+    (h : stepCaller s t c (.rel c) = some s') :
+    ∃ te, (s.callers c).emptyAt = some te ∧ (s.callers c).endT ≤ te + s.cfg.slack ∧ (s'.callers c).failed = true := by
+  simp only [stepCaller, hpc] at h
+  split at h
+  · next te hte =>
+    split at h
+    · next hg =>
+      simp only [Option.some.injEq] at h
+      subst h
+      refine ⟨te, hte, hg.1, ?_⟩
+      simp [State.setC, failTo]
+    · simp at h
+  · simp at h
+
+theorem recv_empty_bounded (s s' : State) (t c : Nat) (h : stepCaller s t c (.recv c .empty) = some s') :
+    t ≤ (s.callers c).lastT + s.cfg.gran + s.cfg.slack := by
+  cases hpc : (s.callers c).pc <;> simp only [stepCaller, hpc] at h <;> try (simp at h)
+  exact h.1.2.2.1
+
+/-- state visible, step level: once a `recv` has reported the closed connection the caller cannot return (nor do
+anything else) before `closeConnection` has run and `is_connected = false` has been announced -/
+theorem state_visible_partial (s : State) (t c : Nat) (e : Ev)
+    (hpc : (s.callers c).pc = .closing ∨ (s.callers c).pc = .visF) :
+    (stepCaller s t c e).isSome = true → (∃ x, e = .hclose x) ∨ (∃ x, e = .isconn x false) := by
+  intro h
+  rcases hpc with hpc | hpc <;> cases e <;> simp [stepCaller, hpc] at h ⊢
+  · exact h
+
+/-- reconnect rate limit, step level: an attempt on behalf of a communicate call goes on only if the reconnect
+interval has passed since the attempt recorded last; otherwise the call fails at once -/
+theorem reconnect_rate_limited_partial (s s' : State) (t c t' : Nat) (hpc : (s.callers c).pc = .chkNow)
+    (h : stepCaller s t c (.now c t') = some s') :
+    (s.lastAttempt + s.cfg.interval ≤ t' ∧ s'.lastAttempt = t' ∧ (s'.callers c).pc = .rcheck) ∨
+    (t' < s.lastAttempt + s.cfg.interval ∧ (s'.callers c).failed = true) := by
+  simp only [stepCaller, hpc] at h
+  split at h
+  · next hle => simp only [Option.some.injEq] at h; subst h; left; simp [State.setC, hle]
+  · next hlt => simp only [Option.some.injEq] at h; subst h; right; simp [State.setC, failTo]; omega
+
+/-- every connect attempt is recorded first: `connect` is accepted only in the state entered by the clock read of
+`read_is_connected`, which stores the time of the attempt -/
+theorem reconnect_recorded_partial (s s' : State) (t c t' : Nat) (hpc : (s.callers c).pc = .rcheck)
+    (h : stepCaller s t c (.now c t') = some s') : s'.lastAttempt = t' ∧ (s'.callers c).pc = .connecting := by
+  simp only [stepCaller, hpc] at h
+  split at h
+  · simp only [Option.some.injEq] at h; subst h; simp [State.setC]
+  · simp at h
+
+/-- callbacks once, step level: in the state "callbacks `n :: rest` still to run" the only accepted event is the run
+of callback `n`, after which `rest` remains (or the caller goes on) -/
+theorem callbacks_once_partial (s s' : State) (t c n n' : Nat) (rest : List Nat) (keep : Bool)
+    (hpc : (s.callers c).pc = .cbs (n :: rest)) (h : stepCaller s t c (.cb c n' keep) = some s') :
+    n' = n ∧ (rest ≠ [] → (s'.callers c).pc = .cbs rest) := by
+  simp only [stepCaller, hpc] at h
+  split at h
+  · next hn =>
+    simp only [Option.some.injEq] at h
+    subst h
+    refine ⟨hn, fun hr => ?_⟩
+    cases rest with
+    | nil => exact absurd rfl hr
+    | cons a b => cases keep <;> simp [State.setC]
+  · simp at h
+
+/-! ## recorded finding: a stale `is_connected = True` from the read wrapper (C16:state_not_overwritten) -/
+
+def findingCfg : Cfg := { bytesMode := false, eol := [10], timeout := 2000000, waitBefore := 0, interval := 3000000,
+                          gran := Frappy.Generated.C16.recvGranularity, slack := 300 }
+
+/-- caller 1 reconnects (read_is_connected returns True); before its wrapper announces that value caller 3 sends,
+finds the connection closed, closes it and announces `is_connected = false`; then the wrapper's update arrives -/
+def findingRun : List TEv := [
+  ⟨5000000, .call 1 .comm [⟨[65, 10], true, 0, 0⟩]⟩, ⟨5000000, .chk 1 false⟩, ⟨5000000, .now 1 5000001⟩,
+  ⟨5000001, .now 1 5000002⟩, ⟨5000002, .connect 1 true true⟩, ⟨5000003, .isconn 1 true⟩,
+  ⟨5000004, .call 3 .comm [⟨[65, 10], true, 0, 0⟩]⟩, ⟨5000004, .chk 3 true⟩, ⟨5000004, .acq 3⟩, ⟨5000004, .flush 3⟩,
+  ⟨5000004, .send 3 0 0 [65, 10]⟩, ⟨5000004, .devclose 0⟩, ⟨5000005, .recv 3 .closed⟩, ⟨5000005, .hclose 3⟩,
+  ⟨5000006, .isconn 3 false⟩, ⟨5000007, .isconn 1 true⟩]
+
+/-- the full clause `state_visible_statement` FAILS for the code that exists: an accepted run in which
+`is_connected` is set back to true after the connection was closed, without any connect in between -/
+theorem state_visible_fails : ¬ state_visible_statement := by
+  intro h
+  have := (h findingCfg [] findingRun (by unfold Accepted; decide)).2
+  revert this
+  unfold StateNotOverwritten
+  decide
+
+/-- … while the first half (the update `is_connected = false` is made before the detecting call returns) holds on it -/
+example : StateVisible findingRun := by unfold StateVisible; decide
+
 end Frappy.Props.C16
